@@ -8,7 +8,7 @@
 (* when the trace has been consumed.  Acceptance = the whole trace was      *)
 (* consumed (postcondition on the diameter).                                *)
 (***************************************************************************)
-EXTENDS NinjaRef, Json, IOUtils
+EXTENDS CleanRef, Json, IOUtils
 
 TraceFile == IF "TRACE" \in DOMAIN IOEnv THEN IOEnv.TRACE ELSE "trace.ndjson"
 OutFile == IF "VIOL" \in DOMAIN IOEnv THEN IOEnv.VIOL ELSE "viol.ndjson"
@@ -372,17 +372,6 @@ CleanEv == E
 DdKnown(T, i) == LET s == St(g, i) IN s.dd = "" \/ Exists(T, s.dd)
 \* the graph as the tool knows it: dyndep information only of files that exist
 GK(T) == [g EXCEPT !.stmts = [i \in DOMAIN g.stmts |-> IF DdKnown(T, i) THEN g.stmts[i] ELSE [g.stmts[i] EXCEPT !.ddi = <<>>, !.ddo = <<>>]]]
-EdgeFiles(gg, i) == LET s == gg.stmts[i] IN
-  Outs(s) \cup (IF s.deps \in {"depfile", "gcc"} THEN {DepfilePath(s)} ELSE {}) \cup (IF s.rsp THEN {s.rsppath} ELSE {})
-RECURSIVE CleanClose(_, _, _)
-CleanClose(gg, S, fuel) ==
-  LET nxt == (S \cup {Prod(gg, f) : f \in UNION {ManIn(gg.stmts[i]) \cup ToS(gg.stmts[i].oo) : i \in S}}) \ {0}
-  IN IF nxt = S \/ fuel = 0 THEN S ELSE CleanClose(gg, nxt, fuel - 1)
-CleanScope(gg, T, ev, blog) ==
-  CASE ev.mode = "all" -> UNION {EdgeFiles(gg, i) : i \in {j \in DOMAIN gg.stmts : ~gg.stmts[j].phony /\ (ev.gflag \/ ~gg.stmts[j].gen)}}
-    [] ev.mode = "targets" -> UNION {EdgeFiles(gg, i) : i \in {j \in CleanClose(gg, {Prod(gg, t) : t \in ToS(ev.args)} \ {0}, Len(gg.stmts) + 1) : ~gg.stmts[j].phony}}
-    [] ev.mode = "rules" -> UNION {EdgeFiles(gg, i) : i \in {j \in DOMAIN gg.stmts : ~gg.stmts[j].phony /\ ("r" \o ToString(gg.stmts[j].id)) \in ToS(ev.args)}}
-    [] ev.mode = "dead" -> {blog[k].o : k \in DOMAIN blog} \ (AllOuts(gg) \cup UNION {ManIn(gg.stmts[i]) \cup ToS(gg.stmts[i].oo) : i \in DOMAIN gg.stmts})
 TClean ==
   /\ Is("Clean")
   /\ LET T == E.pre
